@@ -648,6 +648,18 @@ def setitem(I, o, k, v, node):
             j = I.ctx.choose([idx == i for i in range(len(o))])
             o[j] = v
             return
+    if isinstance(o, SList):
+        if kind_of(k) not in ("int", "bool"):
+            raise PyRaise(ExcValue("TypeError", ("list indices must be integers",)))
+        st = o.sym.t
+        n = z3.Length(st)
+        idx = norm_index(I, k, n)
+        x = unwrap_elem(I, v, o.sym.elem)
+        if isinstance(k, int) and k == -1:        # last element (n >= 1 on this path): no suffix
+            o.sym = Sym(z3.Concat(z3.Extract(st, z3.IntVal(0), n - 1), z3.Unit(x)), "seq", o.sym.elem)
+        else:
+            o.sym = Sym(z3.Concat(z3.Extract(st, z3.IntVal(0), idx), z3.Unit(x), z3.Extract(st, idx + 1, n - idx - 1)), "seq", o.sym.elem)
+        return
     if isinstance(o, dict):
         o[dict_key(I, k, node)] = v
         return
